@@ -1,5 +1,6 @@
 import ACModel.Driver.Wire
 import ACModel.Model.Measures
+import ACModel.Model.Multiclass
 /- driver request `measure.exact`: the exact value (a rational, or its square) of an association measure of
    `Model/Measures.lean` — the definitions the invariance theorems of C15 are about — so that the harness can compare the
    selectors' own doubles with them -/
@@ -32,6 +33,12 @@ def exact (j : Json) : R Json := do
   | "chi2" =>
     let t ← listJ (listJ (fun x => x.getNat?)) (← fld j "table")
     pure (obj [("chi2", optRatW (chi2Table t))])
+  | "chi2data" =>
+    -- the contingency table is built by the model too (`Measures.contingency`), from the two columns
+    let xs ← listJ (fun x => x.getStr?) (← fld j "xs"); let ys ← listJ (fun x => x.getStr?) (← fld j "ys")
+    let cats := Multi.sortStr xs.eraseDups
+    let cls := Multi.sortStr ys.eraseDups
+    pure (obj [("chi2", optRatW (chi2Table (contingency xs ys cats cls))), ("r", natW cats.length), ("c", natW cls.length)])
   | k => throw s!"unknown measure {k}"
 
 end DriverMeasures
